@@ -225,12 +225,14 @@ def session(ctx, ppg, inst):
     old = sys.stdout
     with warnings.catch_warnings(record=True) as wl:
         warnings.simplefilter("always")
+        _live.append(wl)
         sys.stdout = buf
         amb0 = core.ambient_snapshot(full=False)
         try:
             yield out
         finally:
             sys.stdout = old
+            _live.pop()
             # "a warning is issued" for every clamped request of any call sequence: the driver must not reconfigure the
             # process-wide warnings machinery (a 'once' / 'ignore' filter pushed by one call silences the warnings of later ones)
             amb = core.ambient_diff(amb0, core.ambient_snapshot(full=False))
@@ -244,6 +246,14 @@ def session(ctx, ppg, inst):
             if line.strip():
                 chk.query(line)
         out["events"] = chk.log
+
+
+_live = []
+
+
+def _peek_warnings():
+    """warnings recorded so far by the innermost open session"""
+    return list(_live[-1]) if _live else []
 
 
 def expected_channels(sel):
@@ -315,8 +325,10 @@ def check_setter(ctx, kind, events, warns, requested, chans):
     for e, ch, v in zip(evs, chans, requested):
         want = min(max(v, lo), hi)
         ctx.check("clamp.emitted", e["ch"] == ch and abs(e["value"] - want) <= prec + 1e-12 * abs(want), f"{kind} CH{ch}: requested {v!r}, emitted {e['value']!r}, expected the clamped value {want!r}")
-    got_warning = any("range" in w.lower() or "limit" in w.lower() for w in warns)
-    ctx.check("clamp.warned", got_warning == out_of_range or (got_warning and not out_of_range and False), f"{kind}: request {'out of' if out_of_range else 'inside'} range but warning issued = {got_warning}")
+    # `warns`: the warnings of a session whose channel selection is valid, so that any warning is about the value. Counted, never read:
+    # the wording of a warning is not part of the property (false alarm on refactoring R13-C20, whose clamp warning names the channel)
+    got_warning = len(warns) > 0
+    ctx.check("clamp.warned", got_warning == out_of_range, f"{kind}: request {'out of' if out_of_range else 'inside'} range but warning issued = {got_warning}")
 
 
 def w_setters(ctx, rng, i):
@@ -355,12 +367,20 @@ def w_setters(ctx, rng, i):
         ctx.describe(kind=kind, dry_run=dry, channels=sel, requested=requested, scalar=scalar)
         with session(ctx, ppg, inst) as s:
             getattr(ppg, name)(arg, sel)
-        chan_warn = [w for w in s["warnings"] if "channel" in w.lower()]
-        val_warn = [w for w in s["warnings"] if "channel" not in w.lower()]
-        check_setter(ctx, kind, s["events"], val_warn, requested, chans)
         sel_arr = None if sel is None else np.atleast_1d(np.array(sel, dtype=int))
-        sel_bad = sel_arr is not None and (np.any(sel_arr < 1) or np.any(sel_arr > 4) or sel_arr.size > 4)
-        ctx.check("channels.warned", bool(chan_warn) == bool(sel_bad), f"channel selection {sel!r}: out of range={bool(sel_bad)}, warning issued={bool(chan_warn)}")
+        sel_bad = bool(sel_arr is not None and (np.any(sel_arr < 1) or np.any(sel_arr > 4) or sel_arr.size > 4))
+        oor = any(v < lo or v > hi for v in requested)
+        if sel_bad:
+            # which warning is about what is decided without reading them: the same values are requested again on a fresh driver with the
+            # valid selection that the bad one reduces to — whatever is warned there is about the values
+            ctx.check("channels.warned", len(s["warnings"]) >= 1, f"channel selection {sel!r} is out of range and no warning was issued")
+            ppg2, inst2 = new_driver(ctx, dry)
+            with session(ctx, ppg2, inst2) as s2:
+                getattr(ppg2, name)(list(requested), list(chans))
+            check_setter(ctx, kind, s["events"], s2["warnings"], requested, chans)
+        else:
+            check_setter(ctx, kind, s["events"], s["warnings"], requested, chans)
+            ctx.check("channels.warned", bool(s["warnings"]) == oor, f"channel selection {sel!r} is valid and the values are {'out of' if oor else 'in'} range, yet warnings = {s['warnings'][:2]}")
     ctx.case(("set", kind, dry, repr(sel), i // 5 if kind == "freq" else repr(np.round(np.array(requested, float), 3 if kind != "skew" else 14))), sample=dict(kind=kind, dry_run=dry, channels=sel, events=[e for e in s["events"] if e][:4]) if i < 6 else None)
     ctx.bin("setter", kind)
     ctx.bin("dry_run", dry)
@@ -378,7 +398,9 @@ def w_misc_commands(ctx, rng, i):
             n = int(rng.integers(1, 41))
             return [int(rng.choice(ORDERS)), int(rng.integers(-10, 70)), 2 ** n - 1, 2 ** n + int(rng.integers(0, 2)), 10 ** int(rng.integers(1, 12)), int(rng.choice([3, 8, 10, 13, 20, 40, 100, -5]))][k]
         order = [int(rng.choice(ORDERS)), any_order(), [any_order() if rng.integers(2) else int(rng.choice(ORDERS + [12, 25])) for _ in chans]][int(rng.integers(3))]
+        n_before = len(_peek_warnings())
         ppg.set_prbs_order(order, sel)
+        n_order_warn = len(_peek_warnings()) - n_before
         ppg.set_bits_shift(int(rng.integers(-5, 100)), sel)
         ppg.enable_outputs(sel)
         ppg.disable_outputs(sel)
@@ -391,9 +413,18 @@ def w_misc_commands(ctx, rng, i):
     for e, v in zip(pl, req):
         want = v if v in ORDERS else ORDERS[int(np.argmin(np.abs(np.array(ORDERS) - v)))]
         ctx.check("clamp.emitted", e["value"] == want or (v not in ORDERS and e["value"] in ORDERS and abs(e["value"] - v) == abs(want - v)), f"PRBS order requested {v}, emitted {e['value']}, nearest supported {want}")
-    ctx.check("clamp.warned", any("order" in w.lower() for w in s["warnings"]) == any(v not in ORDERS for v in req), "PRBS order: warning issued iff an unsupported order was requested")
+    sel_arr = None if sel is None else np.atleast_1d(np.array(sel, dtype=int))
+    sel_bad = bool(sel_arr is not None and (np.any(sel_arr < 1) or np.any(sel_arr > 4) or sel_arr.size > 4))
+    unsupported = any(v not in ORDERS for v in req)
+    # counted during the set_prbs_order call itself, never read (the wording is not part of the property)
+    ctx.check("clamp.warned", (n_order_warn >= 1) == (unsupported or sel_bad) if not (sel_bad and not unsupported) else n_order_warn >= 1, f"PRBS order {order!r} on channels {sel!r}: unsupported={unsupported}, bad selection={sel_bad}, warnings during the call={n_order_warn}")
+    if sel_bad and unsupported:
+        ppg2, inst2 = new_driver(ctx, i % 4 == 3)
+        with session(ctx, ppg2, inst2) as s2:
+            ppg2.set_prbs_order(list(req), list(chans))
+        ctx.check("clamp.warned", len(s2["warnings"]) >= 1, f"PRBS order {req!r} (unsupported) on the valid channels {chans}: no warning")
     with core.quiet():
-        ctx.raises("errors", ValueError, ppg.set_mode, "pulse", sel)
+        ctx.probe("set_mode.other_mode", ppg.set_mode, "pulse", sel)        # (probe: the statement names no rejection of a mode string)
     ctx.case(("misc", repr(sel)[:20], i % 4 == 3))
 
 
@@ -583,8 +614,14 @@ def w_sync(ctx, rng, i):
     if i % 10 == 0:
         with core.quiet():
             ctx.raises("sync.short", (BufferError, ValueError), L.SYNC, rx[: l - int(rng.integers(1, l // 2))], slots, sps)
-            ctx.raises("sync.errors", ValueError, L.SYNC, rx, slots)
-            ctx.raises("sync.errors", TypeError, L.SYNC, rx.tolist(), slots, sps)
+            # (only the short record is a rejection the statement names; a SYNC that accepts lists or a missing sps is not judged —
+            # false alarm on refactoring R13-C20)
+            for nm, args in (("no_sps", (rx, slots)), ("list_input", (rx.tolist(), slots, sps))):
+                try:
+                    L.SYNC(*args)
+                    ctx.bin("sync.other_forms", f"{nm}: accepted")
+                except (ValueError, TypeError) as e:
+                    ctx.bin("sync.other_forms", f"{nm}: {type(e).__name__}")
     ctx.case(("sync", order, sps, dsel, variant, form), sample=dict(order=order, sps=sps, pattern_samples=l, d=d, sigma=sigma, index=None if out is None else int(idx)) if i < 6 else None)
     ctx.bin("sync.delay_class", ["0", "1", "l-1", "sps", "l/2", "random"][dsel])
 
